@@ -9,7 +9,12 @@
  *             `target <i> returns <1000+i>` and returns (void*)(1000+i).  Targets are NOT
  *             detached by the harness.
  *   actors  : one fiber per '|'-separated op list; ops  j<i> join target i, t<i> tryjoin,
- *             d<i> detach, y yield.
+ *             d<i> detach, y yield;  J<i> = fiber_join(target i, NULL), T<i> =
+ *             fiber_tryjoin(target i, NULL): logged as `call joinn <i>` / `ret joinn <i> <ok>`
+ *             (`tryjoinn`), no value field (none is observed).  With a NULL result pointer
+ *             the code skips its reads of the result cells but a joiner that had to wait still
+ *             clears its own hand-over slot (`current_fiber->result = NULL`): the actors'
+ *             `result` cells are registered (reg), so the write or its absence is in the log.
  *   reaper  : one more fiber, scheduled by main once every actor has finished; it joins every
  *             target that has neither been joined successfully nor been detached.
  *
@@ -62,7 +67,7 @@ static void do_op(const char* op) {
     return;
   }
   if (i < 0 || i >= ntargets) return;
-  const char* nm = op[0] == 'j' ? "join" : op[0] == 't' ? "tryjoin" : "detach";
+  const char* nm = op[0] == 'j' ? "join" : op[0] == 't' ? "tryjoin" : op[0] == 'J' ? "joinn" : op[0] == 'T' ? "tryjoinn" : "detach";
   if (retired[i] || tfreed[i]) { /* the handle is known to be invalid: do not issue */
     vr_note("skip %s %d", nm, i);
     return;
@@ -72,6 +77,10 @@ static void do_op(const char* op) {
     int rc = fiber_detach(targets[i]);
     vr_note("ret detach %d %d", i, rc == FIBER_SUCCESS);
     retired[i] = 1;
+  } else if (op[0] == 'J' || op[0] == 'T') { /* NULL result pointer: no value is observed */
+    int rc = op[0] == 'J' ? fiber_join(targets[i], NULL) : fiber_tryjoin(targets[i], NULL);
+    vr_note("ret %s %d %d", nm, i, rc == FIBER_SUCCESS);
+    if (rc == FIBER_SUCCESS) retired[i] = 1;
   } else {
     void* res = (void*)7;
     int rc = op[0] == 'j' ? fiber_join(targets[i], &res) : fiber_tryjoin(targets[i], &res);
